@@ -57,6 +57,11 @@ fn c11_case(root: &Root, depth: u8, line: &str) -> J {
 }
 
 pub fn run_c11(rep: &Report) -> i32 {
+    explore_c11(rep, true)
+}
+
+/// the exploration behind C11; with finish = false the caller (C18) writes the evidence
+pub fn explore_c11(rep: &Report, finish: bool) -> i32 {
     let quick = rep.quick();
     let depth: u8 = if quick { 3 } else { 5 };
     let h = ZobristHasher::create_zobrist_hasher();
@@ -70,6 +75,8 @@ pub fn run_c11(rep: &Report) -> i32 {
     let stalemate_moves = AtomicU64::new(0);
     let stalemate_not_zero = AtomicU64::new(0);
     let infos_n = AtomicU64::new(0);
+    // roots with a mate in one, swept over every expiry point afterwards
+    let mate1_sweep: std::sync::Mutex<Vec<Pos>> = std::sync::Mutex::new(Vec::new());
     for (name, t) in &tables {
         let idx = AtomicUsize::new(0);
         let n = t.positions.len();
@@ -111,7 +118,9 @@ pub fn run_c11(rep: &Report) -> i32 {
                     let tb_of = |p: &Pos| -> Val { t.get(p).unwrap_or(Val::Draw) };
                     // (1) mate in one is played once iteration 1 has finished
                     if t.val[i] == Val::Win(1) {
-                        mate1_roots.fetch_add(1, Ordering::Relaxed);
+                        if mate1_roots.fetch_add(1, Ordering::Relaxed) % (if quick { 97 } else { 11 }) == 0 {
+                            mate1_sweep.lock().unwrap().push(*pos);
+                        }
                         if let Some(j) = infos.iter().rposition(|x| x.depth == 1) {
                             match child_of(&run.sent[j]) {
                                 Some((m, c)) => {
@@ -160,6 +169,9 @@ pub fn run_c11(rep: &Report) -> i32 {
                             }
                         }
                         if let Some(nm) = info.mate {
+                            if nm == 0 {
+                                rep.fail("C11", "mate-announcement-without-a-distance", format!("{} ({}): '{}' announces a mate in 0 moves; the table says root {:?}", root.name, name, info.raw, t.val[i]), c11_case(&root, depth, &info.raw));
+                            }
                             if nm > 0 {
                                 mate_claims.fetch_add(1, Ordering::Relaxed);
                                 let ok_child = matches!(tb_of(&child), Val::Loss(p) if (p as i64) <= 2 * nm - 2);
@@ -231,7 +243,9 @@ pub fn run_c11(rep: &Report) -> i32 {
                     let walks_into = |c: &Pos| c.legal_moves().iter().any(|m2| c.make(m2).is_checkmate());
                     let mate1 = legal.iter().any(|m| pos.make(m).is_checkmate());
                     if mate1 {
-                        b_mate1.fetch_add(1, Ordering::Relaxed);
+                        if b_mate1.fetch_add(1, Ordering::Relaxed) % (if quick { 13 } else { 3 }) == 0 {
+                            mate1_sweep.lock().unwrap().push(*pos);
+                        }
                         if let Some(j) = infos.iter().rposition(|x| x.depth == 1) {
                             if let Some(m) = move_of_successor(pos, &run.sent[j]) {
                                 if !pos.make(&m).is_checkmate() {
@@ -283,6 +297,58 @@ pub fn run_c11(rep: &Report) -> i32 {
             }
         });
     }
+    // ---- every expiry point on roots with a mate in one: once iteration 1 has finished, the move the search
+    // holds (the last one handed back) gives mate, wherever the clock cuts the later iterations
+    let mut sweep_roots: Vec<Pos> = mate1_sweep.into_inner().unwrap();
+    for f in ["6k1/5ppp/8/8/8/8/8/R3K3 w Q - 0 1", "7k/8/5K2/6Q1/8/8/8/8 w - - 0 1", "k7/8/1K6/8/8/8/8/7R w - - 0 1", "r1bqkb1r/pppp1ppp/2n2n2/4p2Q/2B1P3/8/PPPP1PPP/RNB1K1NR w KQkq - 4 4"] {
+        sweep_roots.push(Pos::from_fen(f).unwrap());
+    }
+    let sweep_points = AtomicU64::new(0);
+    for pos in &sweep_roots {
+        let root = fresh_root(pos, &h);
+        let pieces = pos.b.iter().filter(|x| **x != 0).count();
+        let d: u8 = if pieces > 10 { 2 } else if quick { 3 } else { 4 };
+        let r1 = run_search(&root.board, &root.table, None, 1);
+        let k1 = r1.queries; // consultations until iteration 1 has finished
+        let rd = run_search(&root.board, &root.table, None, d);
+        let kmax = rd.queries;
+        let idx = AtomicU64::new(k1);
+        std::thread::scope(|s| {
+            for _ in 0..threads() {
+                s.spawn(|| loop {
+                    let k = idx.fetch_add(1, Ordering::Relaxed);
+                    if k > kmax {
+                        break;
+                    }
+                    let run = run_search(&root.board, &root.table, Some(k), d);
+                    sweep_points.fetch_add(1, Ordering::Relaxed);
+                    nodes.fetch_add(run.queries, Ordering::Relaxed);
+                    if run.panicked.is_some() {
+                        continue; // C07's oracle
+                    }
+                    if let Some(last) = run.sent.last() {
+                        if let Some(m) = move_of_successor(pos, last) {
+                            if !pos.make(&m).is_checkmate() {
+                                rep.fail("C11", "mate-in-one-not-played/clock-expiring-after-iteration-1", format!("{}: iteration 1 has finished (it needs {} clock consultations), the clock expires at consultation {}, and the move held is {} which does not mate", root.name, k1, k, m.uci()), J::obj().set("kind", J::s("e2-search")).set("position_command", J::s(&root.command)).set("position_fen", J::s(&pos.fen())).set("expiry_index", J::Int(k as i128)).set("stop_after_iteration", J::Int(d as i128)));
+                            }
+                        }
+                    }
+                    for l in &run.infos {
+                        if let Ok(info) = parse_info(l) {
+                            if let Some(nm) = info.mate {
+                                // with a mate in one on the board the only truthful announcement is "mate 1"
+                                if nm != 1 {
+                                    rep.fail("C11", "false-mate-announcement/clock-expiring", format!("{}: expiry at consultation {}: '{}' although the side to move mates in one", root.name, k, info.raw), J::obj().set("kind", J::s("e2-search")).set("position_command", J::s(&root.command)).set("position_fen", J::s(&pos.fen())).set("expiry_index", J::Int(k as i128)).set("stop_after_iteration", J::Int(d as i128)).set("line", J::s(l)));
+                                }
+                            }
+                        }
+                    }
+                });
+            }
+        });
+    }
+    rep.add("mate_in_one_roots_swept_over_every_expiry_point", sweep_roots.len() as u64);
+    rep.add("expiry_points_on_mate_in_one_roots", sweep_points.load(Ordering::Relaxed));
     rep.add("back_rank_family_positions_searched", b_searched.load(Ordering::Relaxed));
     rep.add("back_rank_family_roots_with_mate_in_one", b_mate1.load(Ordering::Relaxed));
     rep.add("back_rank_family_roots_where_a_blunder_into_mate_is_possible_and_avoidable", b_avoid.load(Ordering::Relaxed));
@@ -299,7 +365,14 @@ pub fn run_c11(rep: &Report) -> i32 {
     rep.assume("an info line inside an iteration states the value of the move it names first; the last line of an iteration is the iteration's verdict on the root");
     let rule = format!("every legal non-terminal position of the complete KQK and KRK families{} searched by the real get_best_move to the end of iteration {}; every info line judged against exact distance-to-mate tables", if quick { " with the white king in the a1-d1-d4 triangle" } else { "" }, depth);
     let rule = format!("{}; plus the back-rank family (kings behind three pawns, one rook each on any back-rank file a-f, one loose black knight/bishop/pawn on any square of ranks 3-6, both sides to move{}) searched to iteration {}: mate in one played, no blunder into mate in one handed back once iteration 2 has finished", rule, if quick { ", every 5th position" } else { "" }, if quick { 3 } else { 4 });
-    rep.finish(searched.load(Ordering::Relaxed) + b_searched.load(Ordering::Relaxed), nodes.load(Ordering::Relaxed), rep.get("tb_forward_validations"), true, &rule)
+    let rule = format!("{}; plus every clock-expiry index after the end of iteration 1 on {} roots with a mate in one: the move held always mates", rule, sweep_roots.len());
+    if finish {
+        rep.finish(searched.load(Ordering::Relaxed) + b_searched.load(Ordering::Relaxed) + sweep_points.load(Ordering::Relaxed), nodes.load(Ordering::Relaxed), rep.get("tb_forward_validations"), true, &rule)
+    } else {
+        rep.add("family_states", searched.load(Ordering::Relaxed) + b_searched.load(Ordering::Relaxed) + sweep_points.load(Ordering::Relaxed));
+        rep.add("family_transitions", nodes.load(Ordering::Relaxed));
+        0
+    }
 }
 
 /// kings behind three pawns, a rook each on the back rank, a loose black piece as bait
